@@ -103,7 +103,7 @@ func main() {
 		}
 	}
 	sort.Strings(pkgsToLoad)
-	needTypes := pass["detrange"] || pass["chanyield"]
+	needTypes := pass["detrange"] || pass["chanyield"] || pass["detselect"]
 	mode := packages.NeedName | packages.NeedFiles | packages.NeedCompiledGoFiles | packages.NeedSyntax
 	if needTypes {
 		mode |= packages.NeedTypes | packages.NeedTypesInfo | packages.NeedImports
@@ -130,6 +130,9 @@ func main() {
 			}
 			if pass["chanyield"] {
 				rw.chanyield()
+			}
+			if pass["detselect"] {
+				rw.detselect()
 			}
 			if pass["simsync"] {
 				rw.swapImport("sync", "verifsim/simsync", "sync", "sync_imports")
@@ -169,6 +172,8 @@ type rewriter struct {
 	usesRT   bool
 	ctr      int
 	counters map[string]int
+	// generated marks select statements emitted by detselect (never rewritten again)
+	generated map[*ast.SelectStmt]bool
 }
 
 func (rw *rewriter) swapImport(from, to, defName, counter string) {
@@ -405,4 +410,212 @@ func (rw *rewriter) chanyield() {
 		}
 		return true
 	})
+}
+
+// ---- detselect ------------------------------------------------------------------------------
+//
+// A select with two or more communication clauses picks pseudo-randomly (runtime fastrand,
+// which cannot be seeded) among the clauses that are ready when it is entered. The pass
+// rewrites such a select into: evaluate the channel operands and send values once, in source
+// order; probe the clauses one by one, in source order, with non-blocking operations; if none
+// was ready fall into the original (blocking, or defaulted) select over the same operands;
+// then dispatch on the chosen clause with a switch, so that an unlabeled break in a clause
+// body still leaves the statement. With one runnable goroutine at a time (GOMAXPROCS=1, no
+// async preemption) nothing can become ready between the probes and the blocking select, so
+// the blocking select is decided by the first counterpart to arrive.
+
+func (rw *rewriter) detselect() {
+	ast.Inspect(rw.f, func(n ast.Node) bool {
+		switch x := n.(type) {
+		case *ast.BlockStmt:
+			x.List = rw.detselectList(x.List)
+		case *ast.CaseClause:
+			x.Body = rw.detselectList(x.Body)
+		case *ast.CommClause:
+			x.Body = rw.detselectList(x.Body)
+		}
+		return true
+	})
+}
+
+func id(name string) *ast.Ident { return ast.NewIdent(name) }
+
+func (rw *rewriter) detselectList(list []ast.Stmt) []ast.Stmt {
+	out := make([]ast.Stmt, 0, len(list))
+	for _, s := range list {
+		var label *ast.LabeledStmt
+		inner := s
+		if l, ok := inner.(*ast.LabeledStmt); ok {
+			label, inner = l, l.Stmt
+		}
+		sel, ok := inner.(*ast.SelectStmt)
+		if !ok || rw.generated[sel] {
+			out = append(out, s)
+			continue
+		}
+		pre, sw, ok := rw.rewriteSelect(sel)
+		if !ok {
+			out = append(out, s)
+			continue
+		}
+		out = append(out, pre...)
+		if label != nil {
+			label.Stmt = sw
+			out = append(out, label)
+		} else {
+			out = append(out, sw)
+		}
+		rw.changed, rw.usesRT = true, true
+		rw.counters["selects_determinised"]++
+	}
+	return out
+}
+
+func (rw *rewriter) rewriteSelect(sel *ast.SelectStmt) ([]ast.Stmt, ast.Stmt, bool) {
+	var comms []*ast.CommClause
+	var def *ast.CommClause
+	for _, c := range sel.Body.List {
+		cc := c.(*ast.CommClause)
+		if cc.Comm == nil {
+			def = cc
+		} else {
+			comms = append(comms, cc)
+		}
+	}
+	if len(comms) < 2 {
+		return nil, nil, false
+	}
+	rw.ctr++
+	n := strconv.Itoa(rw.ctr)
+	which := "which__" + n
+	var pre []ast.Stmt
+	// which := -1
+	pre = append(pre, &ast.AssignStmt{Lhs: []ast.Expr{id(which)}, Tok: token.DEFINE, Rhs: []ast.Expr{&ast.UnaryExpr{Op: token.SUB, X: &ast.BasicLit{Kind: token.INT, Value: "1"}}}})
+	notYet := func() ast.Expr {
+		return &ast.BinaryExpr{X: id(which), Op: token.LSS, Y: &ast.BasicLit{Kind: token.INT, Value: "0"}}
+	}
+	setWhich := func(i int) ast.Stmt {
+		return &ast.AssignStmt{Lhs: []ast.Expr{id(which)}, Tok: token.ASSIGN, Rhs: []ast.Expr{&ast.BasicLit{Kind: token.INT, Value: strconv.Itoa(i)}}}
+	}
+	blocking := &ast.SelectStmt{Body: &ast.BlockStmt{}}
+	if rw.generated == nil {
+		rw.generated = map[*ast.SelectStmt]bool{}
+	}
+	rw.generated[blocking] = true
+	dispatch := &ast.SwitchStmt{Tag: id(which), Body: &ast.BlockStmt{}}
+	// phase 0: evaluate operands once, in source order
+	type info struct {
+		ch, val, r, ok string
+		recv           *ast.UnaryExpr
+		assign         *ast.AssignStmt
+		send           *ast.SendStmt
+	}
+	infos := make([]info, len(comms))
+	for i, cc := range comms {
+		k := n + "_" + strconv.Itoa(i)
+		in := info{ch: "c__" + k, val: "v__" + k, r: "r__" + k, ok: "ok__" + k}
+		switch st := cc.Comm.(type) {
+		case *ast.SendStmt:
+			in.send = st
+			pre = append(pre, &ast.AssignStmt{Lhs: []ast.Expr{id(in.ch)}, Tok: token.DEFINE, Rhs: []ast.Expr{st.Chan}})
+			pre = append(pre, &ast.AssignStmt{Lhs: []ast.Expr{id(in.val)}, Tok: token.DEFINE, Rhs: []ast.Expr{st.Value}})
+		case *ast.ExprStmt:
+			u, ok := unparen(st.X).(*ast.UnaryExpr)
+			if !ok || u.Op != token.ARROW {
+				return nil, nil, false
+			}
+			in.recv = u
+			pre = append(pre, &ast.AssignStmt{Lhs: []ast.Expr{id(in.ch)}, Tok: token.DEFINE, Rhs: []ast.Expr{u.X}})
+		case *ast.AssignStmt:
+			if len(st.Rhs) != 1 {
+				return nil, nil, false
+			}
+			u, ok := unparen(st.Rhs[0]).(*ast.UnaryExpr)
+			if !ok || u.Op != token.ARROW {
+				return nil, nil, false
+			}
+			in.recv, in.assign = u, st
+			pre = append(pre, &ast.AssignStmt{Lhs: []ast.Expr{id(in.ch)}, Tok: token.DEFINE, Rhs: []ast.Expr{u.X}})
+		default:
+			return nil, nil, false
+		}
+		infos[i] = in
+	}
+	// a send value of an untyped constant would change type when hoisted; give up on those
+	for _, in := range infos {
+		if in.send != nil {
+			if tv, ok := rw.p.TypesInfo.Types[in.send.Value]; ok && tv.Value != nil {
+				return nil, nil, false
+			}
+			if tv, ok := rw.p.TypesInfo.Types[in.send.Value]; ok && tv.IsNil() {
+				return nil, nil, false
+			}
+		}
+	}
+	// phase 1: probes in source order; phase 2: the blocking select; phase 3: dispatch
+	for i, cc := range comms {
+		in := infos[i]
+		var body []ast.Stmt
+		if in.send != nil {
+			// inline non-blocking send (keeps the original assignability of value to
+			// the channel's element type, which a generic helper would not)
+			pre = append(pre, &ast.IfStmt{
+				Cond: notYet(),
+				Body: &ast.BlockStmt{List: []ast.Stmt{&ast.SelectStmt{Body: &ast.BlockStmt{List: []ast.Stmt{
+					&ast.CommClause{Comm: &ast.SendStmt{Chan: id(in.ch), Value: id(in.val)}, Body: []ast.Stmt{setWhich(i)}},
+					&ast.CommClause{},
+				}}}}},
+			})
+			blocking.Body.List = append(blocking.Body.List, &ast.CommClause{
+				Comm: &ast.SendStmt{Chan: id(in.ch), Value: id(in.val)}, Body: []ast.Stmt{setWhich(i)}})
+		} else {
+			got := "got__" + n + "_" + strconv.Itoa(i)
+			pre = append(pre, &ast.AssignStmt{Lhs: []ast.Expr{id(in.r), id(in.ok), id(got)}, Tok: token.DEFINE,
+				Rhs: []ast.Expr{&ast.CallExpr{Fun: rtSel("TryRecvIf"), Args: []ast.Expr{notYet(), id(in.ch)}}}})
+			pre = append(pre, &ast.IfStmt{Cond: id(got), Body: &ast.BlockStmt{List: []ast.Stmt{setWhich(i)}}})
+			pre = append(pre, &ast.AssignStmt{Lhs: []ast.Expr{id("_"), id("_")}, Tok: token.ASSIGN, Rhs: []ast.Expr{id(in.r), id(in.ok)}})
+			blocking.Body.List = append(blocking.Body.List, &ast.CommClause{
+				Comm: &ast.AssignStmt{Lhs: []ast.Expr{id(in.r), id(in.ok)}, Tok: token.ASSIGN, Rhs: []ast.Expr{&ast.UnaryExpr{Op: token.ARROW, X: id(in.ch)}}},
+				Body: []ast.Stmt{setWhich(i)}})
+			if in.assign != nil {
+				rhs := []ast.Expr{id(in.r)}
+				if len(in.assign.Lhs) == 2 {
+					rhs = append(rhs, id(in.ok))
+				}
+				body = append(body, &ast.AssignStmt{Lhs: in.assign.Lhs, Tok: in.assign.Tok, Rhs: rhs})
+				if in.assign.Tok == token.DEFINE {
+					for _, l := range in.assign.Lhs {
+						if !isBlank(l) {
+							body = append(body, &ast.AssignStmt{Lhs: []ast.Expr{id("_")}, Tok: token.ASSIGN, Rhs: []ast.Expr{l}})
+						}
+					}
+				}
+			}
+		}
+		body = append(body, cc.Body...)
+		dispatch.Body.List = append(dispatch.Body.List, &ast.CaseClause{
+			List: []ast.Expr{&ast.BasicLit{Kind: token.INT, Value: strconv.Itoa(i)}}, Body: body})
+	}
+	if def != nil {
+		blocking.Body.List = append(blocking.Body.List, &ast.CommClause{Body: []ast.Stmt{setWhich(len(comms))}})
+		dispatch.Body.List = append(dispatch.Body.List, &ast.CaseClause{
+			List: []ast.Expr{&ast.BasicLit{Kind: token.INT, Value: strconv.Itoa(len(comms))}}, Body: def.Body})
+	}
+	pre = append(pre, &ast.IfStmt{Cond: notYet(), Body: &ast.BlockStmt{List: []ast.Stmt{blocking}}})
+	// a default clause keeps the statement "terminating" when every clause body is
+	// (a select whose clauses all return needs no return after it)
+	dispatch.Body.List = append(dispatch.Body.List, &ast.CaseClause{Body: []ast.Stmt{
+		&ast.ExprStmt{X: &ast.CallExpr{Fun: id("panic"), Args: []ast.Expr{&ast.BasicLit{Kind: token.STRING, Value: strconv.Quote("verif detselect: unreachable")}}}},
+	}})
+	return pre, dispatch, true
+}
+
+func unparen(e ast.Expr) ast.Expr {
+	for {
+		p, ok := e.(*ast.ParenExpr)
+		if !ok {
+			return e
+		}
+		e = p.X
+	}
 }
